@@ -18,7 +18,7 @@ R = [
  ("identifiers::key_id::KeyId::<A, K>::key_name", "str_index", None, "INV-ID", INV + "colon_idx()+1 <= len on a char boundary (':' is one byte)"),
  ("identifiers::key_id::KeyId::<A, K>::from_parts", "assert:overflow", None, "ARITH", "sum of two string lengths plus 1; each length <= isize::MAX"),
  ("identifiers::matrix_uri::MatrixId::to_string_with_type", "index", None, "INV-ID", INV + "a non-empty string starting with a 1-byte sigil, so as_bytes()[1..] is in range"),
- ("identifiers::matrix_uri::MatrixToUri::parse", "unwrap", "expect", "INFALLIBLE", "first next() of str::split always yields an element"),
+ ("identifiers::matrix_uri::MatrixToUri::parse", "unwrap", None, "INFALLIBLE", "first next() of str::split always yields an element"),
  ("identifiers::mxc_uri::MxcUri::parts::{closure#0}", "str_index", None, "G2", "idx is the value just returned by mxc_uri::validate(self): 6 + index of the first '/' after the 6-byte ASCII prefix `mxc://`, checked to fit u8 without wrapping"),
  ("identifiers::room_alias_id::RoomAliasId::alias", "str_index", None, "INV-ID", INV + "sigil '#' at 0 and a ':' at colon_idx() >= 1"),
  ("identifiers::room_alias_id::RoomAliasId::colon_idx", "unwrap", None, "INV-ID", INV + "that the alias contains ':'"),
